@@ -320,7 +320,7 @@ def finding(fid):
 
 
 OBLIGATION_TO_FINDING = {
-    "read_pdf/policy#aes-provider-ensured": "F28-pdf-aes128-empty-password",
+    "read_pdf/typestate#aes-provider-ensured": "F28-pdf-aes128-empty-password",
     "is_odf_encrypted/ensures#true-only-if": "F18-odf-substring",
     "_extract_from_zip_optimized/exc-ensures#encrypted-error-only-if": "F25-zip-runtimeerror-as-encrypted",
     "_extract_from_7z_optimized/exc-ensures#aes-coded-header": "F26-7z-encrypted-header",
